@@ -27,7 +27,7 @@ REGIMES = {
 
 def zspec(name="z", view="honest", rules=None, relays=None, expect="", dials=False, **fork):
     d = dict(name=name, view=view, rules=rules or [], relays=relays or [], expect=expect, dials=dials,
-             forkAt=0, forkLen=0, badAt=-1, badKind="", prefix=0)
+             forkAt=0, forkLen=0, badAt=-1, badKind="", prefix=0, hangup="", tag="")
     d.update(fork)
     return d
 
@@ -51,6 +51,8 @@ def zlabel(z):
         parts.append("colluding")
     elif z["view"] == "honest-prefix":
         parts.append("prefix%d" % z.get("prefix", 0))
+    if z.get("hangup"):
+        parts.append("hangup")
     elif z["view"] == "planted":
         parts.append("serve-planted")
     elif z["view"] == "fork" and z["badAt"] >= 0:
@@ -177,6 +179,22 @@ def catalogue(tier, seed):
     if thorough:
         add("post", [zspec(name="z0", relays=[dict(kind="outline-badtxn", when="connected")], expect="ban"),
                      zspec(name="z1", view="planted", expect="ban", dials=True), zspec(name="z2", view="planted", dials=False)], honest=2)
+
+    # ---- hang up before the verdict: the Byzantine peer serves provably invalid data and closes the connection right after;
+    # the harness holds the victim's AddBlocks / AddValidatedV2Blocks back until the victim has noticed the disconnect.
+    # The ban is owed for the MISBEHAVIOUR, not for the connection: PeerStore.Ban must still be called.
+    for regime, kinds in (("mid", ["badtxn", "commitment", "payout"]), ("v1", ["badtxn", "payout"]), ("post", ["badtxn", "commitment"])):
+        for kind in (kinds if thorough else kinds[:2]):
+            add(regime, [zspec(view="fork", badAt=rng.choice([0, 3, REGIMES[regime]["forkLen"] - 1]), badKind=kind, expect="ban", hangup="blk-", dials=rng.random() < 0.5)])
+    add("mid", [zspec(rules=[dict(rpc="SendV2Blocks", kind="payout", pos=2)], expect="ban", hangup="blk-")])
+    for regime in ["mid", "post"]:
+        for kind in ["outline-badtxn", "outline-height", "txset-empty"] + (["hdr-lowwork", "outline-lowwork"] if regime == "post" else []):
+            add(regime, [zspec(relays=[dict(kind=kind, when="connected")], expect="ban", hangup="relay-", dials=rng.random() < 0.5)])
+        add(regime, [zspec(relays=[dict(kind="outline-missing-wrong", when="connected")], rules=[dict(rpc="SendTransactions", kind="wrong")], expect="ban", hangup="txn-")])
+    if thorough:
+        add("mid", [zspec(name="z0", relays=[dict(kind="outline-badtxn", when="synced")], expect="ban", hangup="relay-", dials=True)])
+        add("post", [zspec(name="z0", relays=[dict(kind="outline-badtxn", when="connected")], expect="ban", hangup="relay-"),
+                     zspec(name="z1", view="planted", expect="ban", hangup="blk-")])
 
     # ---- ID twin, poison-then-heal: the victim sits on its own fork; the Byzantine peer holds only a PREFIX of the honest
     # fork (still lighter, at heights <= the victim's tip) and serves it through the AddBlocks path with one v2 block's
@@ -391,7 +409,8 @@ def selftest():
     good = x.exit != 0 and "HonestProgress was violated" in (x.error or "") + x.out
     log("selftest 3 (model whose AddBlocks skips re-delivered stored blocks at or below the tip: the twin is never healed, HonestProgress violated): %s" % ("ok" if good else "FAILED"))
     ok3 = ok3 and good
-    for cfg, inv, what in (("Sync_byz_twin_coworker_dev.cfg", "NoHonestBan", "model that bans the peer of the batch being added instead of the peer that served the invalid block"),
+    for cfg, inv, what in (("Sync_byz_hangup_dev.cfg", "ProvableMisbehaviourBanned", "model whose ban is skipped for a peer that hung up before the verdict"),
+                           ("Sync_byz_twin_coworker_dev.cfg", "NoHonestBan", "model that bans the peer of the batch being added instead of the peer that served the invalid block"),
                            ("Sync_byz_ckptcount_dev.cfg", "NeverPanics", "model whose SendCheckpoint does not check the payout count: the victim process dies"),
                            ("Sync_byz_ckptvalue_dev.cfg", "AlwaysValid", "model whose SendCheckpoint does not bind the payout value: pre-validation is void")):
         x = vlib.run_tlc(wd, "SyncMC", cfg, workers=4, timeout=900)
